@@ -444,8 +444,9 @@ impl LLFree<'_> {
                 }
             },
             Err(Some(Reservation { row, free, .. })) => {
-                // Sync with global tree
-                if sync {
+                // Sync with global tree, if the reservation itself is too small
+                // (it might also have been refused because it is in a different tree)
+                if sync && free < (1 << order) {
                     let min = (1 << order) - free;
                     if let Some(free) = self.trees.sync(row.as_tree(), min) {
                         if self.locals.put(class, local, row.as_tree(), free) {
